@@ -8,6 +8,7 @@ use std::fmt::{Formatter, Result};
 use crate::rust_ir::*;
 use crate::split::Split;
 use chalk_ir::interner::Interner;
+use chalk_ir::Variance;
 use itertools::Itertools;
 
 use super::{
@@ -76,6 +77,22 @@ impl<I: Interner> RenderAsRust<I> for AdtDatum<I> {
         let s = &s.add_debrujin_index(None);
         let value = self.binders.skip_binders();
 
+        // variances (invariant, the default, is not printed)
+        let interner = s.db().interner();
+        let variances = s.db().unification_database().adt_variance(self.id);
+        if variances
+            .as_slice(interner)
+            .iter()
+            .any(|v| *v != Variance::Invariant)
+        {
+            let names = variances.as_slice(interner).iter().map(|v| match v {
+                Variance::Covariant => "Covariant",
+                Variance::Invariant => "Invariant",
+                Variance::Contravariant => "Contravariant",
+            });
+            writeln!(f, "#[variance({})]", names.format(", "))?;
+        }
+
         // flags
         write_flags!(
             f,
@@ -87,6 +104,9 @@ impl<I: Interner> RenderAsRust<I> for AdtDatum<I> {
                 phantom_data
             }
         );
+        if s.db().adt_size_align(self.id).one_zst() {
+            writeln!(f, "#[one_zst]")?;
+        }
 
         // repr
         let repr = s.db().adt_repr(self.id);
